@@ -30,6 +30,8 @@ def run(ctx):
     def one(case, wrap):
         try:
             return aio.encode(guarded(lambda: aio.call_backend(backends, case, wrap), 5.0), squared=case["op"] == "std")
+        except aio.NotInBackendApi:
+            return {"skip": True}
         except (Exception, CaseTimeout) as e:
             return {"error": f"{type(e).__name__}: {e}"[:200]}
 
@@ -47,7 +49,7 @@ def run(ctx):
         kinds[c["k"]] = kinds.get(c["k"], 0) + 1
     nontrivial = sum(1 for c in cases if len(c["args"]) > 1 or len(c["args"][0]["data"]) > 1)
     ctx.coverage.update({
-        "evaluations": 2 * len(cases) + 1, "distinct_nontrivial": nontrivial, "exhaustive": True,
+        "evaluations": sum(1 for r in results for b in ("np", "xr") if "skip" not in r[b]) + 1, "distinct_nontrivial": nontrivial, "exhaustive": True,
         "cases_by_kind": kinds, "marked_batchable_in_library": marked,
         "rule": "spec/Arrays.tla!Cases enumerated by TLC: sum/prod/min/max/mean/std/var over 2.."
                 f"{consts['MaxArgs']} arrays (shapes (1),(2),(3),(2,2){',(2,3)' if not ctx.quick else ''}; shape (1): all of "
@@ -56,7 +58,11 @@ def run(ctx):
                 "integer index and with index sequences, add/subtract/multiply/divide/pow on equal shapes and with a scalar, "
                 "and f(f(b1),..,f(bk)) through the implementation for every composition 1<k<n (all float64); plus dtype bool "
                 "(entries 0/1) and int8 (entries 100,127,-128,2): sum/prod/min/max/mean over 2..3 arrays, int8 add/multiply "
-                "(wrap modulo 256), batched sum/prod/min/max; each case evaluated on numpy "
+                "(wrap modulo 256), batched sum/prod/min/max; plus NEGATIVE axis/dim (-1..-rank; stack: -1..-(rank+1)) for the "
+                "one-array reductions, stack, concat, take with integer and sequence indices (normalised by the spec as "
+                "NumPy does) - on the array-API backend for all of them, on the xarray backend for take only (its "
+                "reductions/concat name the dimension; its stack with a negative axis is left out, see assumptions); "
+                "each case evaluated on numpy "
                 "arrays and on DataArrays; non-trivial = more than one element involved; batchability of each variadic "
                 f"function decided by TLC on 1..{consts['BatchArgs']} arguments, every composition into consecutive batches",
         "clauses": ["raised", "shape_differs", "value_differs", "marked_but_not_batchable",
@@ -80,5 +86,8 @@ def run(ctx):
         "values are exact small integers/rationals; a float is read back as the rational with denominator "
         "<= 4096 within 1e-9",
         "std is compared squared (sign kept); a batch of one argument is handed on unchanged, as fluent.reduce does",
+        "XArrayBackend.stack(axis<0) is NOT in the judged domain: on this tree it places the new dimension one position "
+        "too early (axis=-1 -> second to last) where np.stack counts from the end of the RESULT; proposed fix "
+        "proposed_fixes/C15_xarray_stack_negative_axis.diff - once applied, drop \"stack\" from arrays_io.XR_AXIS_BY_NAME",
         "xarray objects are DataArrays without coordinates; Dataset and the earthkit FieldList backend are not covered",
     ]
